@@ -29,6 +29,8 @@ class Endpoint(object):
         self.sock = sock
         self.path = path or '/org/ietf/dtn/tcpcl/Contact_%s' % name
         self.closed_events = []
+        from vf.world.sim import install_clock  # pylint: disable=import-outside-toplevel
+        install_clock()
         with sim.as_node(name):
             kwargs = dict(config=cfg, sock=sock)
             if passive:
